@@ -556,6 +556,18 @@ func checkC09(r *evid.Run) {
 					break
 				}
 			}
+			// ... nor does it fail otherwise: on a fresh target (present, or not there yet) the real run creates what was
+			// counted
+			s4 := s3
+			s4.Pre = absFS{}
+			for _, sx := range []*fsState{&s3, &s4} {
+				if o, err := runFsCall(pool, sx, c, false, false); err == nil && o.rp.Class != "ok" {
+					r.Count("real_calls", 1)
+					r.Mismatch("dryrun:counts-but-real-mkdir-fails", fmt.Sprintf("%s: the dry run reports %v, the real mkdir into a fresh target (present=%v) returns %s %q", callString(s, c), s.Res.Counts, len(sx.Pre.Dirs) > 0, o.rp.Class, o.rp.Err),
+						fsReplayRec{Items: s.Items, Conc: c.Name, Call: call})
+					break
+				}
+			}
 			if got, ok := realCounts(pool, &s3, c); ok {
 				r.Count("real_calls", 1)
 				for i, cnt := range s.Res.Counts {
